@@ -135,7 +135,7 @@ def solve_job(job):
 
 
 CACHE_DIR = os.path.join(os.path.dirname(os.path.dirname(os.path.abspath(__file__))), 'build', 'vc_cache')
-MAX_FALLBACK_PER_FUNCTION = 6
+MAX_FALLBACK_PER_FUNCTION = 24
 
 
 def _cache_get(h):
